@@ -263,6 +263,57 @@ fn labels_for(env: &Env, rng: &mut Rng, n: usize) -> Vec<Label> {
         .collect()
 }
 
+/// The Gaussians *handed to synthesis*: the hooked trajectories of an engine without GV must be
+/// the maximum-likelihood generation from the file's float32 entries (read by the independent
+/// reader), for every stream and also for states that only become voiced at a low threshold.
+fn handed_to_synthesis(ctx: &mut Ctx, env: &Env, rng: &mut Rng, base: &Engine, rv: &RefVoice, descr: &str) {
+    use crate::synth::{ref_label, trajectories, trajectory_deviation};
+    use jbonsai::mlpg_adjust::MlpgAdjust;
+    use jbonsai::model::voice::window::{Window, Windows};
+    use jbonsai::model::{MeanVari, ModelStream, StreamParameter};
+    if rv.streams.iter().any(|s| s.use_gv) {
+        return;
+    }
+    let labels: Vec<Label> = env.corpus.random_utterance(rng, 2, 6);
+    let mut e = base.clone();
+    let thr1 = *rng.pick(&[0.0, 0.04, 0.3, 0.5]);
+    e.condition.set_msd_threshold(1, thr1);
+    let Ok(run) = trajectories(&e, labels.clone()) else {
+        ctx.violation("synthesize-err", J::from(descr));
+        return;
+    };
+    let mut per_label = Vec::new();
+    for l in &labels {
+        match ref_label(rv, &l.to_string()) {
+            Ok(r) => per_label.push(r),
+            Err(er) => {
+                ctx.inconclusive(&format!("reference: {}", er));
+                return;
+            }
+        }
+    }
+    let got = [&run.spectrum, &run.lf0, &run.lpf];
+    for (si, rs) in rv.streams.iter().enumerate() {
+        let stream: Vec<(Vec<MeanVari>, f64)> = per_label
+            .iter()
+            .flat_map(|rl| rl.streams[si].iter().map(|g| (g.mean.iter().zip(&g.vari).map(|(m, v)| MeanVari(*m, *v)).collect::<Vec<_>>(), g.msd.unwrap_or(f64::MAX))))
+            .collect();
+        let windows = Windows::new(rs.windows.iter().map(|w| Window::new(w.clone())).collect());
+        let ms = ModelStream { vector_length: rs.vector_length, stream: StreamParameter::new(stream), gv: None, windows: &windows };
+        let want = MlpgAdjust::new(1.0, e.condition.get_msd_threshold(si), ms).create(&run.durations);
+        let dev = trajectory_deviation(got[si], &want);
+        ctx.max("handed_to_synthesis_worst_deviation", if dev.is_finite() { dev } else { 1e300 });
+        if !(dev <= 1e-9) {
+            ctx.violation(
+                "parameters-handed-to-synthesis-are-not-the-files-entries",
+                J::obj().set("voice", descr).set("stream", rs.name.clone()).set("f0_threshold", thr1).set("deviation", dev).set("labels", J::Arr(labels.iter().take(3).map(|l| J::Str(l.to_string())).collect())),
+            );
+            return;
+        }
+    }
+    ctx.count("utterances_generated_from_file_entries", 1.0);
+}
+
 pub fn run(ctx: &mut Ctx) {
     let env = Env::new(ctx);
     let bundled_voice = load_htsvoice_file(&env.bundled_path).expect("bundled voice loads");
@@ -288,6 +339,53 @@ pub fn run(ctx: &mut Ctx) {
         }
     });
 
+    let n = ctx.n(32, 600);
+    ctx.run_cases("handed-to-synthesis", n, false, |ctx, rng, idx| {
+        if idx % 4 == 0 {
+            let mut bytes = env.bundled_bytes.clone();
+            for key in ["USE_GV[MCP]:1", "USE_GV[LF0]:1"] {
+                if let Some(pos) = bytes.windows(key.len()).position(|w| w == key.as_bytes()) {
+                    bytes[pos + key.len() - 1] = b'0';
+                }
+            }
+            let (Ok(rv), p) = (read_voice(&bytes), env.voice_file(&bytes)) else {
+                ctx.inconclusive("reader on the GV-less copy of the bundled voice");
+                return;
+            };
+            let e = Engine::load(&[&p]);
+            env.remove(&p);
+            match e {
+                Ok(e) => {
+                    for _ in 0..3 {
+                        handed_to_synthesis(ctx, &env, rng, &e, &rv, "bundled without GV");
+                    }
+                }
+                Err(er) => ctx.violation("engine-load-err", J::from(format!("{}", er))),
+            }
+        } else {
+            let mut o = VoiceOpts::random(rng);
+            o.gv_mcp = false;
+            o.gv_lf0 = false;
+            let spec = voicegen::generate(&o, &env.pool, rng);
+            let bytes = voicegen::write(&spec);
+            let Ok(rv) = read_voice(&bytes) else {
+                ctx.inconclusive("reference reader on generated voice");
+                return;
+            };
+            let p = env.voice_file(&bytes);
+            let e = Engine::load(&[&p]);
+            env.remove(&p);
+            match e {
+                Ok(e) => {
+                    for _ in 0..3 {
+                        handed_to_synthesis(ctx, &env, rng, &e, &rv, &format!("synthetic[{}]", o.describe()));
+                    }
+                }
+                Err(er) => ctx.violation("generated-voice-does-not-load", J::obj().set("err", format!("{}", er)).set("opts", o.describe())),
+            }
+        }
+        ctx.nontrivial(mix(&[91, idx as u64]));
+    });
     let n = ctx.n(160, 2000);
     ctx.run_cases("synthetic", n, false, |ctx, rng, idx| {
         let mut o = VoiceOpts::random(rng);
